@@ -143,7 +143,7 @@ fn wire_of(c: &JarCookie, wire_proc: &Processor) -> Result<String, String> {
 }
 
 fn state_of(m: &Map) -> std::collections::HashMap<std::borrow::Cow<'static, str>, serde_json::Value> {
-    m.iter().map(|(k, v)| (std::borrow::Cow::Borrowed(KEYS[*k as usize]), serde_json::Value::from(*v as u64))).collect()
+    m.iter().map(|(k, v)| (std::borrow::Cow::Borrowed(KEYS[*k as usize]), serde_json::json!(crate::real::enc(*v)))).collect()
 }
 
 fn parse_sid(s: &str) -> Option<SessionId> {
